@@ -12,7 +12,7 @@ from simkit.kernel import HarnessError
 
 ID = "C07"
 LEVEL = "exploration"
-RUNS = {"quick": 8000, "thorough": 250000}
+RUNS = {"quick": 40000, "thorough": 800000}
 RULE = ("(reframe) the row sequence of a valid stream (real writer / reference encoder) is re-cut into frames at "
         "tape-chosen points with empty and metadata-bearing frames inserted, then parsed flat and grouped; (grouped "
         "write) sequences of graphs/datasets written through one shared stream with a grouped logical type; "
